@@ -210,7 +210,153 @@ theorem fallthrough_counterexample :
 
 /-! ### termination: with bounded optimal sizes the loop returns within a bounded number of iterations -/
 
-/-- total number of samples simulated so far over the live levels -/
-def totalN (s : St) : Nat := ((List.range (s.L + 1)).map (fun l => (s.lv l).N)).sum
+/-- what level l will hold after the next pass -/
+def target (s : St) (l : Nat) : Nat := (s.lv l).N + (s.lv l).dN
+
+/-- progress measure at the loop head: total number of samples after the coming passes -/
+def potential (s : St) : Nat := ((List.range (s.L + 1)).map (target s)).sum
+
+/-- all optimal sizes the criteria ever return are at most B -/
+def OracleBd (B : Nat) (o : Oracle) : Prop := (∀ l, o.Ns.getD l 0 ≤ B) ∧ (∀ l, o.Ns2.getD l 0 ≤ B)
+
+def StBd (B : Nat) (s : St) : Prop := s.L ≤ s.levelMax ∧ s.newInit = 0 ∧ ∀ l, l ≤ s.L → target s l ≤ B
+
+private theorem sum_range_le (n B : Nat) (f : Nat → Nat) (h : ∀ l, l < n → f l ≤ B) :
+    ((List.range n).map f).sum ≤ n * B := by
+  induction n with
+  | zero => simp
+  | succ n ih =>
+    rw [List.range_succ, List.map_append, List.sum_append]
+    have := ih (fun l hl => h l (by omega))
+    have := h n (by omega)
+    simp only [List.map_cons, List.map_nil, List.sum_cons, List.sum_nil]
+    nlinarith
+
+private theorem sum_range_add (n : Nat) (f g : Nat → Nat) :
+    ((List.range n).map (fun l => f l + g l)).sum = ((List.range n).map f).sum + ((List.range n).map g).sum := by
+  induction n with
+  | zero => simp
+  | succ n ih => simp only [List.range_succ, List.map_append, List.sum_append, ih, List.map_cons, List.map_nil,
+      List.sum_cons, List.sum_nil]; omega
+
+private theorem sum_range_congr (n : Nat) (f g : Nat → Nat) (h : ∀ l, l < n → f l = g l) :
+    ((List.range n).map f).sum = ((List.range n).map g).sum := by
+  congr 1; apply List.map_congr_left; intro l hl; exact h l (List.mem_range.mp hl)
+
+theorem potential_le (B : Nat) (s : St) (h : StBd B s) : potential s ≤ (s.levelMax + 1) * B := by
+  unfold potential
+  have h1 := sum_range_le (s.L + 1) B (target s) (fun l hl => h.2.2 l (by omega))
+  have : (s.L + 1) * B ≤ (s.levelMax + 1) * B := Nat.mul_le_mul_right _ (by have := h.1; omega)
+  omega
+
+private theorem loopHead_cont (x s' : St) (h : loopHead x = .cont s') : s' = x ∧ 0 < sumDN x := by
+  unfold loopHead at h
+  split at h
+  · injection h with h; exact ⟨h.symm, by omega⟩
+  · cases h
+
+/-- one more iteration strictly increases the potential and keeps the bounds -/
+theorem iter_progress (p : Proc) (B : Nat) (o : Oracle) (s s' : St) (hb : StBd B s) (ho : OracleBd B o)
+    (h : iter p o s = .cont s') : potential s + 1 ≤ potential s' ∧ StBd B s' ∧ s'.levelMax = s.levelMax := by
+  unfold iter at h
+  simp only at h
+  by_cases hsm : small (setDN o.Ns (afterPasses p s)) = true
+  · rw [if_pos hsm] at h
+    by_cases hcv : (o.conv || (setDN o.Ns (afterPasses p s)).L == (setDN o.Ns (afterPasses p s)).levelMax) = true
+    · rw [if_pos hcv] at h; cases h
+    · rw [if_neg hcv] at h
+      obtain ⟨rfl, hpos⟩ := loopHead_cont _ _ h
+      have hne : s.L ≠ s.levelMax := by
+        intro he; apply hcv
+        have : (setDN o.Ns (afterPasses p s)).L = (setDN o.Ns (afterPasses p s)).levelMax := he
+        simp [this]
+      have hN : ∀ l, l ≤ s.L →
+          target (extendAll (setDN o.Ns2 (addLevel (setDN o.Ns (afterPasses p s))))) l
+            = target s l + (o.Ns2.getD l 0 - target s l) := by
+        intro l hl
+        have h1 : l ≤ s.L + 1 := by omega
+        have h2 : l ≠ s.L + 1 := by omega
+        simp [target, extendAll, extendLvl, setDN, addLevel, afterPasses, passLvl, hl, h1, h2]
+      have hnew : target (extendAll (setDN o.Ns2 (addLevel (setDN o.Ns (afterPasses p s))))) (s.L + 1)
+            = o.Ns2.getD (s.L + 1) 0 := by
+        have h0 : s.newInit = 0 := hb.2.1
+        simp [target, extendAll, extendLvl, setDN, addLevel, afterPasses, h0]
+      refine ⟨?_, ⟨?_, hb.2.1, ?_⟩, rfl⟩
+      · -- potential grows by the number of samples still to do, which is positive
+        have hL : (extendAll (setDN o.Ns2 (addLevel (setDN o.Ns (afterPasses p s))))).L = s.L + 1 := rfl
+        have hsum : potential (extendAll (setDN o.Ns2 (addLevel (setDN o.Ns (afterPasses p s)))))
+            = potential s + sumDN (extendAll (setDN o.Ns2 (addLevel (setDN o.Ns (afterPasses p s))))) := by
+          unfold potential sumDN
+          rw [hL, List.range_succ (n := s.L + 1), List.map_append, List.map_append, List.sum_append, List.sum_append]
+          simp only [List.map_cons, List.map_nil, List.sum_cons, List.sum_nil, Nat.add_zero]
+          rw [hnew]
+          have e1 : ((List.range (s.L + 1)).map (target (extendAll (setDN o.Ns2 (addLevel (setDN o.Ns (afterPasses p s))))))).sum
+              = ((List.range (s.L + 1)).map (fun l => target s l + (o.Ns2.getD l 0 - target s l))).sum :=
+            sum_range_congr _ _ _ (fun l hl => hN l (by omega))
+          have e2 : ((List.range (s.L + 1)).map (fun l => ((extendAll (setDN o.Ns2 (addLevel (setDN o.Ns (afterPasses p s))))).lv l).dN)).sum
+              = ((List.range (s.L + 1)).map (fun l => o.Ns2.getD l 0 - target s l)).sum := by
+            apply sum_range_congr; intro l hl
+            have h1 : l ≤ s.L + 1 := by omega
+            have h2 : l ≠ s.L + 1 := by omega
+            have h3 : l ≤ s.L := by omega
+            simp [target, extendAll, extendLvl, setDN, addLevel, afterPasses, passLvl, h1, h2, h3]
+          have e3 : ((extendAll (setDN o.Ns2 (addLevel (setDN o.Ns (afterPasses p s))))).lv (s.L + 1)).dN = o.Ns2.getD (s.L + 1) 0 := by
+            have h0 : s.newInit = 0 := hb.2.1
+            simp [extendAll, extendLvl, setDN, addLevel, afterPasses, h0]
+          rw [e1, e2, e3, sum_range_add]; omega
+        omega
+      · show s.L + 1 ≤ s.levelMax
+        have := hb.1; omega
+      · intro l hl
+        have hl' : l ≤ s.L + 1 := hl
+        rcases Nat.lt_or_ge l (s.L + 1) with h1 | h1
+        · rw [hN l (by omega)]
+          have := hb.2.2 l (by omega); have := ho.2 l; omega
+        · have : l = s.L + 1 := by omega
+          subst this; rw [hnew]; exact ho.2 _
+  · rw [if_neg hsm] at h
+    obtain ⟨rfl, hpos⟩ := loopHead_cont _ _ h
+    have hN : ∀ l, l ≤ s.L →
+        target (extendAll (setDN o.Ns (afterPasses p s))) l = target s l + (o.Ns.getD l 0 - target s l) := by
+      intro l hl
+      simp [target, extendAll, extendLvl, setDN, afterPasses, passLvl, hl]
+    refine ⟨?_, ⟨hb.1, hb.2.1, ?_⟩, rfl⟩
+    · have hsum : potential (extendAll (setDN o.Ns (afterPasses p s)))
+          = potential s + sumDN (extendAll (setDN o.Ns (afterPasses p s))) := by
+        unfold potential sumDN
+        have hL : (extendAll (setDN o.Ns (afterPasses p s))).L = s.L := rfl
+        rw [hL]
+        have e1 : ((List.range (s.L + 1)).map (target (extendAll (setDN o.Ns (afterPasses p s))))).sum
+            = ((List.range (s.L + 1)).map (fun l => target s l + (o.Ns.getD l 0 - target s l))).sum :=
+          sum_range_congr _ _ _ (fun l hl => hN l (by omega))
+        have e2 : ((List.range (s.L + 1)).map (fun l => ((extendAll (setDN o.Ns (afterPasses p s))).lv l).dN)).sum
+            = ((List.range (s.L + 1)).map (fun l => o.Ns.getD l 0 - target s l)).sum := by
+          apply sum_range_congr; intro l hl
+          have h3 : l ≤ s.L := by omega
+          simp [target, extendAll, extendLvl, setDN, afterPasses, passLvl, h3]
+        rw [e1, e2, sum_range_add]
+      omega
+    · intro l hl
+      have hl' : l ≤ s.L := hl
+      rw [hN l hl']
+      have := hb.2.2 l hl'; have := ho.1 l; omega
+
+/-- **termination**: if every optimal size the criteria return is at most B, `Engine.price` returns after at most
+    `(level_max + 1)·B + 1` iterations of its loop, whatever the verdicts and sizes are. -/
+theorem run_terminates (p : Proc) (B : Nat) (os : List Oracle) (s : St) (hb : StBd B s)
+    (ho : ∀ o ∈ os, OracleBd B o) (hlen : (s.levelMax + 1) * B + 1 ≤ os.length + potential s) :
+    ∃ s', run p os s = .ret s' := by
+  induction os generalizing s with
+  | nil =>
+    have := potential_le B s hb
+    simp at hlen; omega
+  | cons o os ih =>
+    unfold run
+    cases hit : iter p o s with
+    | ret s' => exact ⟨s', rfl⟩
+    | cont s' =>
+      obtain ⟨hp, hb', hm⟩ := iter_progress p B o s s' hb (ho o (by simp)) hit
+      apply ih s' hb' (fun q hq => ho q (by simp [hq]))
+      rw [hm]; simp only [List.length_cons] at hlen; omega
 
 end Rpylib.Mlmc
